@@ -66,7 +66,7 @@ PROFILES = {
     'C01': dict(pool=SYNC_OPS, collect_cache=True, modes=['loopless', 'loopless', 'async', 'threaded'], md=0.3, sinks=['sync'], feedback=True, forward=True),
     'C10': dict(collect_md_cache=True, pool=SYNC_OPS + ASYNC_LOSSLESS + LOSSY, modes=['loopless', 'async', 'async', 'threaded'], md=0.85, falsy_dedup=True,
                 sinks=['sync', 'native', 'tornado', 'future']),
-    'C02': dict(pool=ASYNC_LOSSLESS + ['map', 'filter', 'zip', 'union', 'accumulate', 'sliding_window', 'partition', 'flatten',
+    'C02': dict(restarts=True, pool=ASYNC_LOSSLESS + ['map', 'filter', 'zip', 'union', 'accumulate', 'sliding_window', 'partition', 'flatten',
                                         'zip_latest', 'combine_latest', 'collect', 'pluck', 'starmap', 'slice', 'unique'],
                 need=ASYNC_LOSSLESS + ['zip', 'union'], modes=['async', 'async', 'async', 'threaded'], md=0.3, stalls=True, forward=True,
                 sinks=['sync', 'native', 'tornado', 'future']),
@@ -80,7 +80,7 @@ PROFILES = {
                 sinks=['native', 'tornado', 'future', 'sync']),
     'C05': dict(pool=SYNC_OPS + ASYNC_LOSSLESS + LOSSY, modes=['loopless', 'async', 'async', 'threaded'], md=1.0, refs=True, stalls=True, falsy_dedup=True,
                 sinks=['sync', 'native', 'tornado', 'future']),
-    'C08': dict(falsy_dedup=True, pool=['timed_window', 'partition_t', 'timed_window_unique', 'map', 'filter', 'buffer', 'flatten'],
+    'C08': dict(emit_at_once=0.35, falsy_dedup=True, pool=['timed_window', 'partition_t', 'timed_window_unique', 'map', 'filter', 'buffer', 'flatten'],
                 need=['timed_window', 'partition_t', 'timed_window_unique'], modes=['async', 'async', 'threaded'], md=0.3,
                 sinks=['native', 'tornado', 'future', 'sync'], bursts=True),
     'C13': dict(off_grid=True, pool=['rate_limit', 'delay', 'map', 'filter', 'union', 'buffer'], need=['rate_limit', 'delay'], stalls=True,
@@ -593,6 +593,11 @@ class G:
                     items.append(it)
                     if collects and self.chance(0.2):
                         items.append({'gap': self.pick(GRID), 'flush': self.pick(collects)})
+                    if pf.get('restarts') and mode == 'async' and not feedback and k > 0 and self.chance(0.06):
+                        # p.start() called again while data is flowing (it travels upstream through every node)
+                        leaves = [n['id'] for n in self.graph if n['id'] not in
+                                  set(u for m in self.graph for u in m.get('up', []))]
+                        items.append({'gap': self.pick(GRID), 'restart': self.pick(leaves), 'how': self.pick(['start', 'start', 'stop_start'])})
                 producers.append({'entry': e, 'await': aw, 'start': self.pick([0, 0, 0.25, 1]), 'items': items})
         if collects:
             producers[0]['items'].append({'gap': 0, 'flush': self.pick(collects)})
@@ -655,6 +660,8 @@ class G:
             sc['feedback'] = feedback
         elif self.chance(0.2):
             sc['start_leaves'] = True
+        if mode == 'async' and self.chance(pf.get('emit_at_once', 0.12)):
+            sc['emit_at_once'] = True       # first elements pushed before the loop has had a turn
         if mode == 'threaded' and self.chance(0.25):
             # every caller thread has run (and seen fail) an asynchronous pipeline of its own before
             sc['prelude_failed_emit'] = True
